@@ -1,5 +1,6 @@
 import Drv.Util
 import Model.Wire
+import Model.WireState
 import Model.Producer
 
 /-! Driver for the `wire` stream (C12): encode typed values, decode byte strings. -/
@@ -7,6 +8,36 @@ namespace Drv.C12
 open Wire
 
 def hx (b : Bytes) : String := Bytes.toHexTok b
+
+/-! ### nil vs empty: `ne=<names>` lists the EMPTY slices of the Go value that are not nil, `nt=<indices>` the
+(empty) transactions that are nil; see `harness/streams/c12/c12.go` (`neSet`, `gb`, `dataOfOp`). -/
+
+def neSet (o : Op) : List String := ((o.str "ne").splitOn ",").filter (fun k => k ≠ "" ∧ k ≠ "-")
+
+/-- the Go slice of field `k` -/
+def goField (o : Op) (k : String) : GoSlice :=
+  let b := o.bytes k
+  if b = [] then (if k ∈ neSet o then some [] else none) else some b
+
+def goTxs (o : Op) : GoTxs :=
+  let l := o.list "txs"
+  let nt := o.nats "nt"
+  if l = [] then (if "txs" ∈ neSet o then some [] else none)
+  else some ((l.zipIdx).map fun (t, i) => if t = [] ∧ i ∈ nt then none else some t)
+
+/-- `reflect.DeepEqual` of the slices named `ks` before and after a round trip -/
+def deqFields (o : Op) (ks : List String) : Bool := ks.all fun k => (goField o k).rt == goField o k
+
+def headerKeys : List String := ["lhh", "lch", "dh", "ch", "ah", "lrh", "pa", "vh"]
+
+/-- signer: without a key `FromProto` leaves the zero `Signer{}`; with one the address is a `bytes` field -/
+def deqSigner (o : Op) : Bool :=
+  if o.bytes "pk" = [] then goField o "sa" == none else deqFields o ["sa"]
+
+def deqData (o : Op) : Bool :=
+  (if o.bool "meta" then deqFields o ["mldh"] else true) && (goTxs o).rt == goTxs o
+
+def b01 (b : Bool) : String := if b then "1" else "0"
 
 def headerOfOp (o : Op) : Header :=
   { version := { block := o.nat "vb", app := o.nat "va" }, height := o.nat "h", time := o.nat "t",
@@ -33,6 +64,18 @@ def showData (d : Data) : String :=
 def signerOfOp (o : Op) : Signer := { address := o.bytes "sa", pubKey := o.bytes "pk" }
 def showSigner (s : Signer) : String := s!"sa={hx s.address} pk={hx s.pubKey}"
 
+def opInt (o : Op) (k : String) : Int := ((o.get? k).bind String.toInt?).getD 0
+
+/-- `time.Unix(ts, tn)`; the seconds of an op are an `int64` -/
+def stateOfOp (o : Op) : State :=
+  { version := { block := o.nat "vb", app := o.nat "va" }, chainId := o.bytes "cid",
+    initialHeight := o.nat "ih", lastBlockHeight := o.nat "lh",
+    lastBlockTime := timeUnix (wrapI64 (opInt o "ts")) (opInt o "tn"),
+    daHeight := o.nat "da", lastResultsHash := o.bytes "lrh", appHash := o.bytes "ah" }
+
+def showState (s : State) : String :=
+  s!"vb={s.version.block} va={s.version.app} cid={hx s.chainId} ih={s.initialHeight} lh={s.lastBlockHeight} ts={s.lastBlockTime.sec} tn={s.lastBlockTime.nsec} da={s.daHeight} lrh={hx s.lastResultsHash} ah={hx s.appHash}"
+
 def step (_ : Unit) (line : String) : Unit × String :=
   let o := parseOp line
   let keyOk : Bytes → Bool := fun _ => o.bool "keyok"
@@ -41,17 +84,39 @@ def step (_ : Unit) (line : String) : Unit × String :=
     | "reset" => "ok"
     | "enc-header" =>
       let h := headerOfOp o
-      s!"bytes={hx h.encode} hash={hx h.hash}"
-    | "enc-meta" => s!"bytes={hx (metaOfOp o).encode}"
+      let cid := o.bytes "cid"
+      match h.marshalGo cid with
+      | some b => s!"bytes={hx b} hash={hx (h.hashGo cid)} deq={b01 (deqFields o headerKeys)}"
+      | none => s!"err:marshal hash={hx (h.hashGo cid)}"
+    | "enc-meta" =>
+      match (metaOfOp o).marshalGo (o.bytes "mcid") with
+      | some b => s!"bytes={hx b} deq={b01 (deqFields o ["mldh"])}"
+      | none => "err:marshal"
     | "enc-data" =>
       let d := dataOfOp o
-      s!"bytes={hx d.encode} hash={hx d.hash} dac={hx d.daCommitment}"
+      let cid := o.bytes "mcid"
+      match d.marshalGo cid with
+      | .ok b => s!"bytes={hx b} hash={hx (d.hashGo cid)} dac={hx d.daCommitment} deq={b01 (deqData o)}"
+      | .error _ => s!"err:marshal hash={hx (d.hashGo cid)} dac={hx d.daCommitment}"
     | "enc-sh" =>
       let sh : SignedHeader := { header := headerOfOp o, signature := o.bytes "sig", signer := signerOfOp o }
-      s!"bytes={hx sh.encode} hash={hx sh.header.hash}"
+      let cid := o.bytes "cid"
+      match sh.header.marshalGo cid with
+      | some _ =>
+        s!"bytes={hx sh.encode} hash={hx sh.header.hash} deq={b01 (deqFields o headerKeys && deqFields o ["sig"] && deqSigner o)}"
+      | none => s!"err:marshal hash={hx (sh.header.hashGo cid)}"
     | "enc-sd" =>
       let sd : SignedData := { data := dataOfOp o, signature := o.bytes "sig", signer := signerOfOp o }
-      s!"bytes={hx sd.encode} hash={hx sd.data.hash} dac={hx sd.data.daCommitment}"
+      let cid := o.bytes "mcid"
+      match sd.data.marshalGo cid with
+      | .ok _ =>
+        s!"bytes={hx sd.encode} hash={hx sd.data.hash} dac={hx sd.data.daCommitment} deq={b01 (deqData o && deqFields o ["sig"] && deqSigner o)}"
+      | .error _ => s!"err:marshal hash={hx (sd.data.hashGo cid)} dac={hx sd.data.daCommitment}"
+    | "enc-state" =>
+      let s := stateOfOp o
+      match s.encode? with
+      | some b => s!"bytes={hx b} deq={b01 (deqFields o ["lrh", "ah"] && o.str "loc" != "local")}"
+      | none => "err:marshal"
     | "dec-header" =>
       match Header.decode (o.bytes "b") with
       | some h => s!"ok {showHeader h} re={hx h.encode} hash={hx h.hash}"
@@ -72,6 +137,43 @@ def step (_ : Unit) (line : String) : Unit × String :=
       match SignedData.decode keyOk (o.bytes "b") with
       | some sd => s!"ok {showData sd.data} sig={hx sd.signature} {showSigner sd.signer} re={hx sd.encode} dac={hx sd.data.daCommitment}"
       | none => "err"
+    | "dec-state" =>
+      match State.decode (o.bytes "b") with
+      | some s =>
+        (match s.encode? with
+         | some re => s!"ok {showState s} re={hx re}"
+         | none => "err-re")
+      | none => "err"
+    -- cache files: gob (Go's standard library) frames the value's own MarshalBinary bytes; what LoadFromDisk hands
+    -- back is what the value's UnmarshalBinary makes of them
+    | "cache-sh" =>
+      let sh : SignedHeader := { header := headerOfOp o, signature := o.bytes "sig", signer := signerOfOp o }
+      match sh.header.marshalGo (o.bytes "cid") with
+      | none => "err:save"
+      | some _ =>
+        match SignedHeader.decode keyOk sh.encode with
+        | some x => s!"ok {showHeader x.header} sig={hx x.signature} {showSigner x.signer} hash={hx x.header.hash}"
+        | none => "err:load"
+    | "cache-data" =>
+      let d := dataOfOp o
+      match d.marshalGo (o.bytes "mcid") with
+      | .error _ => "err:save"
+      | .ok b =>
+        match Data.decode b with
+        | some x => s!"ok {showData x} hash={hx x.hash} dac={hx x.daCommitment}"
+        | none => "err:load"
+    -- mutated / truncated cache files: the gob framing is not modelled; these ops are judged by the monitors of
+    -- the stream on the real code (no panic; what is accepted survives save + load)
+    | "cache-load" =>
+      let kind := o.str "kind"
+      if (kind = "sh" ∨ kind = "data") ∧ (o.nat? "file").any (· < 4) then "checked" else "bad-op"
+    | "cache-trunc" =>
+      let kind := o.str "kind"
+      if kind = "sh" then
+        (match (headerOfOp o).marshalGo (o.bytes "cid") with | some _ => "checked" | none => "err:save")
+      else if kind = "data" then
+        (match (dataOfOp o).marshalGo (o.bytes "mcid") with | .ok _ => "checked" | .error _ => "err:save")
+      else "bad-op"
     | "bd-enc" => s!"bytes={hx (Producer.batchDataToBytes (o.list "list"))}"
     | "bd-dec" =>
       match Producer.bytesToBatchData (o.bytes "b") with
